@@ -374,3 +374,25 @@ package redisemu
 //@ ensures slow [C18] found.first: forall i int :: gBpRanged && result >= 0 && gBpS <= i && i < result && i <= gBpE ==> bpBit(bytes, i) != searchBit
 //@ ensures slow [C18] none: forall i int :: gBpRanged && result == -1 && gBpS <= i && i <= gBpE ==> bpBit(bytes, i) != searchBit
 //@ ensures [C18] none.early: !gBpRanged ==> result == -1
+
+// ---------------------------------------------------------------- C18: BITCOUNT
+// bcnt(b, i, j): number of set bits in the bytes b[i..j) (defined by its two
+// unfolding axioms; popcount of a byte is the sum of its eight bits)
+//@ uf bcnt(b []byte, i int, j int) int
+//@ axiom forall b []byte, i int :: bcnt(b, i, i) == 0
+//@ axiom forall b []byte, i int, j int :: 0 <= i && i <= j && j < len(b) ==> bcnt(b, i, j+1) == bcnt(b, i, j) + onescount8(b[j])
+
+// BITCOUNT over the bit range start..end (both inclusive, bit 0 = most
+// significant bit of byte 0): the bits of the first byte from start%8 on, every
+// byte strictly between, the bits of the last byte up to end%8.
+//@ func countSetBitRange
+//@ prop C18
+//@ safetyprop C13
+//@ pure
+//@ requires [C13,C18] window: 0 <= start && start <= end && end < len(allBytes)*8 && len(allBytes) <= 536870912
+//@ loop 1 invariant 1 <= midByte && midByte <= final && final == endByte - startByte && startByte == start/8 && endByte == end/8 && startByte < endByte
+//@ loop 1 invariant [C18] middle: count == onescount8(allBytes[start/8] & (uint8(255) >> uint(start%8))) + bcnt(allBytes, start/8 + 1, start/8 + midByte)
+//@ assertbefore "count += bits.OnesCount8(bytes[final] & endMask)" [C18] middle.done: count == onescount8(allBytes[start/8] & (uint8(255) >> uint(start%8))) + bcnt(allBytes, start/8 + 1, end/8)
+//@ assertbefore "count += bits.OnesCount8(bytes[final] & endMask)" [C18] last.mask: endMask == uint8(255) << uint(7 - end%8) && bytes[final] == allBytes[end/8]
+//@ ensures [C18] one.byte: start/8 == end/8 ==> count == onescount8(allBytes[start/8] & (uint8(255) >> uint(start%8)) & (uint8(255) << uint(7 - end%8)))
+//@ ensures [C18] many.bytes: start/8 < end/8 ==> count == onescount8(allBytes[start/8] & (uint8(255) >> uint(start%8))) + bcnt(allBytes, start/8 + 1, end/8) + onescount8(allBytes[end/8] & (uint8(255) << uint(7 - end%8)))
